@@ -49,6 +49,12 @@ pub enum Sel {
     /// struct of which only the listed (translatable) fields are modelled; a function that touches
     /// any other field does not translate
     StructPartial(&'static str, &'static [&'static str]),
+    /// builder L: enum whose variants may carry (translatable) tuple payloads; variants of cargo
+    /// features the harness does not enable are left out
+    EnumData(&'static str),
+    /// builder L: a function the unit does not translate but declares (Lean text given by a `Raw`
+    /// item): (rust key, lean name, [(param, rust type)], rust return type)
+    ExternFn(&'static str, &'static str, &'static [(&'static str, &'static str)], &'static str),
 }
 
 pub struct Unit {
@@ -176,7 +182,7 @@ fn translate_free_helpers(files: &[File], reg: &mut Registry, out: &mut String, 
         let found = files.iter().find_map(|f| f.items.iter().find_map(|it| if let Item::Fn(g) = it { if g.sig.ident == name { Some(g) } else { None } } else { None }));
         if let Some(g) = found {
             translate_free_helpers(files, reg, out, &g.block, &name, depth + 1)?;
-            let mut tr = FnTr { reg, self_ty: None, ret: Ty::Unit, counter: 0, fn_prefix: name.clone(), local_fns: HashMap::new(), extra_defs: vec![] };
+            let mut tr = FnTr { reg, self_ty: None, ret: Ty::Unit, counter: 0, fn_prefix: name.clone(), local_fns: HashMap::new(), extra_defs: vec![], muts: vec![] };
             let (text, fsig) = tr.function(&g.sig, &g.block, &name).map_err(|e| format!("helper fn {}: {}", name, e))?;
             for d in tr.extra_defs {
                 out.push_str(&d);
@@ -241,6 +247,9 @@ fn translate_unit(repo: &Path, u: &Unit, reg: &mut Registry) -> Res<String> {
         files.push(syn::parse_file(&src).map_err(|e| format!("{}: parse error {}", f, e))?);
         file_names.push(f.to_string());
     }
+    // builder L: methods called on `self` are translated on demand from the unit's files
+    let files = std::rc::Rc::new(files);
+    reg.files = Some(files.clone());
     let mut out = String::new();
     writeln!(out, "-- GENERATED by /verif/tools/translate from /repo/{} — do not edit.", u.file).unwrap();
     writeln!(out, "import LoraVerif.Rt").unwrap();
@@ -319,7 +328,7 @@ fn translate_unit(repo: &Path, u: &Unit, reg: &mut Registry) -> Res<String> {
                     Item::Struct(s) => s,
                     _ => unreachable!(),
                 };
-                let tr = FnTr { reg, self_ty: Some(name.to_string()), ret: Ty::Unit, counter: 0, fn_prefix: String::new(), local_fns: HashMap::new(), extra_defs: vec![] };
+                let tr = FnTr { reg, self_ty: Some(name.to_string()), ret: Ty::Unit, counter: 0, fn_prefix: String::new(), local_fns: HashMap::new(), extra_defs: vec![], muts: vec![] };
                 let mut fields = vec![];
                 for f in &s.fields {
                     let fname = f.ident.as_ref().ok_or("tuple struct")?.to_string();
@@ -338,7 +347,7 @@ fn translate_unit(repo: &Path, u: &Unit, reg: &mut Registry) -> Res<String> {
                     None => (None, *path),
                 };
                 let mut found: Option<(&Type, &Expr)> = None;
-                for f in &files {
+                for f in files.iter() {
                     if let Some(tn) = tyname {
                         for it in &f.items {
                             if let Item::Impl(im) = it {
@@ -362,7 +371,7 @@ fn translate_unit(repo: &Path, u: &Unit, reg: &mut Registry) -> Res<String> {
                     }
                 }
                 let (ty, expr) = found.ok_or(format!("const {} not found", path))?;
-                let mut tr = FnTr { reg, self_ty: tyname.map(|s| s.to_string()), ret: Ty::Unit, counter: 0, fn_prefix: String::new(), local_fns: HashMap::new(), extra_defs: vec![] };
+                let mut tr = FnTr { reg, self_ty: tyname.map(|s| s.to_string()), ret: Ty::Unit, counter: 0, fn_prefix: String::new(), local_fns: HashMap::new(), extra_defs: vec![], muts: vec![] };
                 let t = tr.ty(ty)?;
                 let mut st = vec![];
                 let mut env = HashMap::new();
@@ -390,6 +399,15 @@ fn translate_unit(repo: &Path, u: &Unit, reg: &mut Registry) -> Res<String> {
                     },
                 };
                 let (sig, body) = files.iter().find_map(|f| find_fn(f, tyname, trait_name, fname)).ok_or(format!("fn {} not found", path))?;
+                if let Some(t) = tyname {
+                    // builder L: already emitted as a helper of an earlier item
+                    let k = format!("{}::{}", t, fname);
+                    let d = reg.dyn_fns.borrow().get(&k).cloned();
+                    if let Some(d) = d {
+                        reg.fns.insert(k, d);
+                        continue;
+                    }
+                }
                 let lean_name = match tyname {
                     Some(t) => format!("{}.{}", t, fname),
                     None => fname.to_string(),
@@ -397,7 +415,7 @@ fn translate_unit(repo: &Path, u: &Unit, reg: &mut Registry) -> Res<String> {
                 // private module-level helpers the function calls (a nested helper moved out of the
                 // function, an extracted sub-step) are translated first, without being listed
                 translate_free_helpers(&files, reg, &mut out, body, fname, 0)?;
-                let mut tr = FnTr { reg, self_ty: tyname.map(|s| s.to_string()), ret: Ty::Unit, counter: 0, fn_prefix: lean_name.clone(), local_fns: HashMap::new(), extra_defs: vec![] };
+                let mut tr = FnTr { reg, self_ty: tyname.map(|s| s.to_string()), ret: Ty::Unit, counter: 0, fn_prefix: lean_name.clone(), local_fns: HashMap::new(), extra_defs: vec![], muts: vec![] };
                 let (text, fsig) = tr.function(sig, body, &lean_name).map_err(|e| format!("fn {}: {}", lean_name, e))?;
                 for d in tr.extra_defs {
                     out.push_str(&d);
@@ -415,7 +433,7 @@ fn translate_unit(repo: &Path, u: &Unit, reg: &mut Registry) -> Res<String> {
                 let (sig, body) = files.iter().find_map(|f| find_from_impl(f, from, to)).ok_or(format!("From<{}> for {} not found", from, to))?;
                 let lean_name = format!("{}.into_{}", from, to);
                 reg.aliases.insert("Self".into(), match int_ty(to) { Some(i) => Ty::Int(i), None => Ty::Named(to.to_string()) });
-                let mut tr = FnTr { reg, self_ty: None, ret: Ty::Unit, counter: 0, fn_prefix: lean_name.clone(), local_fns: HashMap::new(), extra_defs: vec![] };
+                let mut tr = FnTr { reg, self_ty: None, ret: Ty::Unit, counter: 0, fn_prefix: lean_name.clone(), local_fns: HashMap::new(), extra_defs: vec![], muts: vec![] };
                 let r = tr.function(sig, body, &lean_name);
                 let (text, fsig) = r.map_err(|e| format!("fn {}: {}", lean_name, e))?;
                 out.push_str(&text);
@@ -435,7 +453,7 @@ fn translate_unit(repo: &Path, u: &Unit, reg: &mut Registry) -> Res<String> {
                     Item::Struct(s) => s,
                     _ => unreachable!(),
                 };
-                let tr = FnTr { reg, self_ty: Some(name.to_string()), ret: Ty::Unit, counter: 0, fn_prefix: String::new(), local_fns: HashMap::new(), extra_defs: vec![] };
+                let tr = FnTr { reg, self_ty: Some(name.to_string()), ret: Ty::Unit, counter: 0, fn_prefix: String::new(), local_fns: HashMap::new(), extra_defs: vec![], muts: vec![] };
                 let mut fields = vec![];
                 for f in &s.fields {
                     let fname = f.ident.as_ref().ok_or("tuple struct")?.to_string();
@@ -454,13 +472,60 @@ fn translate_unit(repo: &Path, u: &Unit, reg: &mut Registry) -> Res<String> {
                 writeln!(out, "  deriving DecidableEq, Repr\n").unwrap();
                 reg.structs.insert(name.to_string(), fields);
             }
+            Sel::EnumData(name) => {
+                let it = find_in(&|it| matches!(it, Item::Enum(e) if e.ident == name)).ok_or(format!("enum {} not found", name))?;
+                let e = match it {
+                    Item::Enum(e) => e,
+                    _ => unreachable!(),
+                };
+                let tr = FnTr { reg, self_ty: Some(name.to_string()), ret: Ty::Unit, counter: 0, fn_prefix: String::new(), local_fns: HashMap::new(), extra_defs: vec![], muts: vec![] };
+                let mut units = vec![];
+                let mut datas = vec![];
+                let mut lines = vec![];
+                for v in &e.variants {
+                    if tr::cfg_disabled(&v.attrs) {
+                        continue;
+                    }
+                    let vn = v.ident.to_string();
+                    match &v.fields {
+                        Fields::Unit => {
+                            lines.push(format!("  | {}", lean_ident(&vn)));
+                            units.push((vn, None));
+                        }
+                        Fields::Unnamed(fs) => {
+                            let tys = fs.unnamed.iter().map(|f| tr.ty(&f.ty)).collect::<Res<Vec<_>>>().map_err(|e| format!("enum {} variant {}: {}", name, vn, e))?;
+                            lines.push(format!("  | {} {}", lean_ident(&vn), tys.iter().enumerate().map(|(k, t)| format!("(a{} : {})", k, t.lean())).collect::<Vec<_>>().join(" ")));
+                            datas.push((vn, tys));
+                        }
+                        Fields::Named(_) => return Err(format!("enum {} variant {} has named fields", name, vn)),
+                    }
+                }
+                writeln!(out, "inductive {} where", name).unwrap();
+                for l in &lines {
+                    writeln!(out, "{}", l).unwrap();
+                }
+                writeln!(out, "  deriving DecidableEq, Repr\n").unwrap();
+                reg.enums.insert(name.to_string(), units);
+                reg.enum_data.insert(name.to_string(), datas);
+            }
+            Sel::ExternFn(key, lean, params, ret) => {
+                let tr = FnTr { reg, self_ty: None, ret: Ty::Unit, counter: 0, fn_prefix: String::new(), local_fns: HashMap::new(), extra_defs: vec![], muts: vec![] };
+                let mut ps = vec![];
+                for (n, t) in params.iter() {
+                    let ty: Type = syn::parse_str(t).map_err(|e| format!("ExternFn {}: {}", key, e))?;
+                    ps.push((n.to_string(), tr.ty(&ty)?));
+                }
+                let rty: Type = syn::parse_str(ret).map_err(|e| format!("ExternFn {}: {}", key, e))?;
+                let r = tr.ty(&rty)?;
+                reg.fns.insert(key.to_string(), FnSig { lean: lean.to_string(), params: ps, ret: r, fallible: false, muts: vec![] });
+            }
             Sel::ConstAs(file_substr, rust_name, lean_name) => {
                 let idx = file_names.iter().position(|n| n.contains(file_substr)).ok_or(format!("no file matching {}", file_substr))?;
                 let c = match find_item(&files[idx].items, &|it| matches!(it, Item::Const(c) if c.ident == rust_name)) {
                     Some(Item::Const(c)) => c,
                     _ => return Err(format!("const {} not found in {}", rust_name, file_names[idx])),
                 };
-                let mut tr = FnTr { reg, self_ty: None, ret: Ty::Unit, counter: 0, fn_prefix: String::new(), local_fns: HashMap::new(), extra_defs: vec![] };
+                let mut tr = FnTr { reg, self_ty: None, ret: Ty::Unit, counter: 0, fn_prefix: String::new(), local_fns: HashMap::new(), extra_defs: vec![], muts: vec![] };
                 let t = tr.ty(&c.ty)?;
                 let mut st = vec![];
                 let mut env = HashMap::new();
@@ -490,7 +555,7 @@ fn translate_unit(repo: &Path, u: &Unit, reg: &mut Registry) -> Res<String> {
             Sel::ExternStruct(name) => {
                 let it = find_in(&|it| matches!(it, Item::Struct(s) if s.ident == name)).ok_or(format!("struct {} not found", name))?;
                 if let Item::Struct(sct) = it {
-                    let tr = FnTr { reg, self_ty: Some(name.to_string()), ret: Ty::Unit, counter: 0, fn_prefix: String::new(), local_fns: HashMap::new(), extra_defs: vec![] };
+                    let tr = FnTr { reg, self_ty: Some(name.to_string()), ret: Ty::Unit, counter: 0, fn_prefix: String::new(), local_fns: HashMap::new(), extra_defs: vec![], muts: vec![] };
                     let mut fields = vec![];
                     for f in &sct.fields {
                         fields.push((f.ident.as_ref().ok_or("tuple struct")?.to_string(), tr.ty(&f.ty)?));
